@@ -1,11 +1,39 @@
-(* C18 -- placeholder while the proofs are being developed: states only that acceptance implies the by-itself checks. *)
+(* C18 -- checkpoints are enforced (theorems over the table and horizon REGENERATED from cheating.py on every run);
+   the genesis bytes regenerated from genesis.py decode canonically to a height-0 block paying the initial subsidy.
+   That the recorded real blocks keep their ids and pass full validation with the real scrypt is a statement about
+   SHA-256 / scrypt / BLAKE2b outputs on six concrete byte strings: decided by executing the unpatched implementation
+   (check C18, part a), not by a theorem -- no Gallina scrypt exists here (DESIGN.md section 8). *)
 From stdpp Require Import gmap.
 From Coq Require Import NArith ZArith.
-From SkV Require Import Bytes Codec Ledger ChainState Pow Validate.
-Theorem C18_accept_passes_by_itself : forall sha scrypt blake verify P s b now s',
-  add_block sha scrypt blake verify P s b now = Ok s' -> v_block_by_itself sha P b now = Ok tt.
-Proof.
-  intros sha scrypt blake verify P s b now s' H. unfold add_block, bind in H.
-  destruct (v_block_by_itself sha P b now) as [[]|k] eqn:E; [reflexivity | discriminate].
-Qed.
-Print Assumptions C18_accept_passes_by_itself.
+From SkV Require Import Bytes Codec Ledger ChainState Pow Validate ChainDefs MiscProofs.
+From SkV Require Gen_Checkpoints Gen_Functions.
+
+Theorem C18_checkpoint : forall sha scrypt blake verify P b s id,
+  p_known P = Gen_Checkpoints.KNOWN_HASHES -> p_hz P = Gen_Checkpoints.MAX_KNOWN_HASH_HEIGHT ->
+  (b_height b, id) ∈ Gen_Checkpoints.KNOWN_HASHES ->
+  (v_block_in_state sha scrypt blake verify P b s = Ok tt <-> block_id sha b = id).
+Proof. exact real_checkpoint_enforced. Qed.
+
+Theorem C18_checkpoint_generic : forall sha scrypt blake verify P b s kh,
+  v_block_in_state sha scrypt blake verify P b s = Ok tt -> (Z.of_N (b_height b) <= p_hz P)%Z ->
+  known_hash (p_known P) (b_height b) = Some kh -> block_id sha b = kh.
+Proof. exact checkpoint_enforced. Qed.
+
+Theorem C18_table_wf :
+  NoDup (map fst Gen_Checkpoints.KNOWN_HASHES) /\
+  Forall (fun e => length (snd e) = 32%nat /\ bytes_wf (snd e)) Gen_Checkpoints.KNOWN_HASHES /\
+  ((0 <= Gen_Checkpoints.MAX_KNOWN_HASH_HEIGHT)%Z /\
+   Forall (fun e => (Z.of_N (fst e) <= Gen_Checkpoints.MAX_KNOWN_HASH_HEIGHT)%Z) Gen_Checkpoints.KNOWN_HASHES /\
+   Z.to_N Gen_Checkpoints.MAX_KNOWN_HASH_HEIGHT ∈ map fst Gen_Checkpoints.KNOWN_HASHES).
+Proof. split; [exact table_heights_distinct | split; [exact table_ids_wf | exact table_max]]. Qed.
+
+Theorem C18_genesis_codec :
+  exists g, dec_block Gen_Checkpoints.genesis_block_data = Some (g, []) /\
+            enc_block g = Gen_Checkpoints.genesis_block_data /\ b_height g = 0%N /\ is_zero32 (b_prev g) = true /\
+            (exists cb, b_txs g = [cb] /\ sum_outputs (tx_outputs cb) = 1000000000%N).
+Proof. exact genesis_decodes. Qed.
+
+Print Assumptions C18_checkpoint.
+Print Assumptions C18_checkpoint_generic.
+Print Assumptions C18_table_wf.
+Print Assumptions C18_genesis_codec.
